@@ -196,7 +196,10 @@ def explore_subtree(execute, cfg, cfg_idx, root, budget, stats, limit=None, fron
     unexpanded prefixes in `frontier` (used by the parent to split work)."""
     stack = [list(root)]
     done = 0
+    cap = int(os.environ.get("VERIF_DIAG_MAX_EXEC", "0") or 0)      # diagnostics only (coverage measurement); never set by checks
     while stack:
+        if cap and stats.executions >= cap:
+            return
         if limit is not None and (len(stack) >= limit or done >= 40 * limit):
             frontier.extend(stack)
             return
